@@ -24,10 +24,10 @@ TGT_NAME = {STM32: 'stm32', NRF51: 'nrf51'}
 # geometries the two real bootloaders report (page size, buffer pages, flash pages, start page)
 REAL_GEOM = {STM32: (1024, 10, 1024, 16), NRF51: (1024, 1, 232, 88)}
 WRITTEN = ('ok', 'okdup', 'lostreply')
-FATES = ('ok', 'okdup', 'nack', 'lostcmd', 'lostreply')
+FATES = ('ok', 'okdup', 'nack', 'lostcmd', 'lostreply', 'stray')
 NACK_ERR = 2
 BUG_CFGS = ['final_page', 'flush_i', 'continue', 'nosizecheck', 'addr_overlap', 'retry8',
-            'loopbound', 'ignore_status', 'chunk26']
+            'loopbound', 'ignore_status', 'chunk26', 'last_any']
 
 
 # --------------------------------------------------------------------------- the simulated target
@@ -73,7 +73,26 @@ class FakeBoot:
     def _reply(self, data):
         self.q.put(self._pk(0xFF, bytearray(data)))
 
+    # Like RadioDriver (out_queue.put(pk): the radio thread reads pk.header / pk.data later), the
+    # link keeps the packet *object* and serialises it at the next link operation; a sender that
+    # re-uses the object after handing it over therefore corrupts what goes on the air.
     def send_packet(self, pk):
+        self._flush()
+        self._held = (pk, _loader_locals())      # loader state at hand-off time
+        if self._is_write(pk):      # the write-flash command is answered while the caller waits
+            self._flush()
+        return True
+
+    def _is_write(self, pk):
+        d = pk.data
+        return pk.header == 0xFF and len(d) >= 2 and d[1] == 0x18
+
+    def _flush(self):
+        held, self._held = getattr(self, '_held', None), None
+        if held is not None:
+            self._transmit(*held)
+
+    def _transmit(self, pk, loc):
         data = list(pk.data)
         if pk.header != 0xFF or len(data) < 2:
             return True
@@ -88,7 +107,7 @@ class FakeBoot:
                 self._reply([t, 0x12, 4, 16, 1, 64, 7, 128])
         elif cmd == 0x14 and len(data) >= 6:
             if self.rec:
-                c, i = _loader_locals()
+                c, i = loc
                 self.ev.append({'e': 'tx', 'data': data, 'recv': True, 'fate': 'deliv', 'ctr': c, 'i': i})
             if t in self.geom:
                 ps, bp = self.geom[t][0], self.geom[t][1]
@@ -100,8 +119,8 @@ class FakeBoot:
             fate = self.fates[self.nwrite] if self.nwrite < len(self.fates) else 'ok'
             self.nwrite += 1
             if self.rec:
-                c, i = _loader_locals()
-                self.ev.append({'e': 'tx', 'data': data, 'recv': fate != 'lostcmd', 'fate': fate,
+                c, i = loc
+                self.ev.append({'e': 'tx', 'data': data, 'recv': fate not in ('lostcmd', 'stray'), 'fate': fate,
                                 'ctr': c, 'i': i})
             if t in self.geom:
                 ps, bp = self.geom[t][0], self.geom[t][1]
@@ -115,9 +134,12 @@ class FakeBoot:
                         self._reply([t, 0x18, 1, 0])
                 elif fate == 'nack':
                     self._reply([t, 0x18, 0, NACK_ERR])
+                elif fate == 'stray':       # the other target's positive write reply, late
+                    self._reply([0xFE if t == 0xFF else 0xFF, 0x18, 1, 0])
         return True
 
     def receive_packet(self, wait=0):
+        self._flush()
         try:
             if wait == 0:
                 pk = self.q.get(False)
@@ -135,7 +157,7 @@ class FakeBoot:
         return pk
 
     def close(self):
-        pass
+        self._flush()
 
 
 # --------------------------------------------------------------------------- the real code
@@ -175,6 +197,7 @@ def execute(sc, mutant=None):
                     except Exception as e:          # what a caller of the library sees
                         res = 'raised'
                         st['exc'] = '%s(%s)' % (type(e).__name__, str(e)[:60])
+                    link._flush()
                     link.rec = False
                     ev.append({'e': 'ret', 'result': res})
                 th = s.spawn(user, 'user')
@@ -207,12 +230,18 @@ def _src_mutant(cls_name, fname, old, new):
             src = textwrap.dedent(inspect.getsource(orig))
             if old not in src:
                 raise common.MachineryError('mutant %s.%s: text %r not found in the code under test'
-                                            % (cls_name, fname, old))
+                                            % (cls_name, fname, old))   # main() probes first
             ns = {}
             exec(compile(src.replace(old, new), '<C12 mutant of %s>' % fname, 'exec'), mod.__dict__, ns)
             cache['fn'] = ns[fname]
         setattr(cls, fname, cache['fn'])
         return lambda: setattr(cls, fname, orig)
+
+    def applicable(blm):
+        import cflib.bootloader.cloader as clm
+        cls = blm.Bootloader if cls_name == 'Bootloader' else clm.Cloader
+        return old in textwrap.dedent(inspect.getsource(cls.__dict__[fname]))
+    install.applicable = applicable
     return install
 
 
@@ -287,7 +316,7 @@ def _flush_outcomes():
     """Fate sequences of one write_flash call: (fates, succeeds).  j lost transmissions of one
     kind, then a final answer; the 6th transmission is the last one."""
     res = []
-    for kind in ('lostcmd', 'lostreply'):
+    for kind in ('lostcmd', 'lostreply', 'stray'):
         for j in range(0, 6):
             if j == 0 and kind == 'lostreply':
                 continue
@@ -607,13 +636,19 @@ def main(tier, seed, replay=None):
     # 4. sensitivity: in-memory mutants must be rejected by the monitor; corrupted traces too
     pool = scenarios_mutant_core(rng) + groups[1][1][::max(1, len(groups[1][1]) // (30 if quick else 300))] + \
         groups[2][1][::max(1, len(groups[2][1]) // (30 if quick else 300))]
-    jobs = [(sc, m) for m in sorted(MUTANTS) for sc in pool]
+    # a textual mutant whose site no longer exists in the tree under test is skipped, not an error
+    _init()
+    import cflib.bootloader as _blm
+    usable = [m for m in sorted(MUTANTS) if MUTANTS[m].applicable(_blm)]
+    for m in sorted(set(MUTANTS) - set(usable)):
+        out.sensitivity['mutant:' + m] = 'skipped: the patched text is not in the code under test'
+    jobs = [(sc, m) for m in usable for sc in pool]
     mtraces = run_scenarios(jobs, mutant='*')
     corrupted = corrupted_traces(all_scs, all_traces)
     cnames = sorted(corrupted)
     mver = judge(out, mtraces + [corrupted[n] for n in cnames], 'mutants + corrupted', count=False)
     cver = mver[len(mtraces):]
-    for m in sorted(MUTANTS):
+    for m in usable:
         vs = [v for (sc, mm), v in zip(jobs, mver) if mm == m]
         rej = [v[0] for v in vs if v[0] != 'ok']
         out.sensitivity['mutant:' + m] = '%d of %d traces rejected (%s)' % (
